@@ -12,6 +12,7 @@
 -/
 import M4riProofs.Mp
 import M4riProofs.Sched
+import M4ri.Gen.Inventory
 namespace M4ri.Props.C16
 open M4ri M4ri.BMat M4ri.BMat.Mp
 
@@ -22,6 +23,13 @@ theorem mul_mp_correct (sched : List (Fin 4)) (p : sched.Perm [0, 1, 2, 3]) (fue
 theorem addmul_mp_correct (sched : List (Fin 4)) (p : sched.Perm [0, 1, 2, 3]) (fuel cutoff : Nat) (C A B : BMat)
     (hA : A.WF) (hB : B.WF) (hC : C.WF) (hk : A.ncols = B.nrows) (hr : C.nrows = A.nrows) (hc : C.ncols = B.ncols) :
     addmulMp4 sched fuel C A B cutoff = C.add (A.mul B) := addmulMp4_eq_add_mul sched p fuel cutoff C A B hA hB hC hk hr hc
+
+/-- GENERATED obligation (the list `Gen.ompLoops` is re-extracted from the C sources on every check): in every
+`omp parallel for` loop, every name declared outside the loop body that the body assigns is the loop variable or is
+listed in a `private` clause -- the hypothesis "an iteration writes only its own state" under which
+`Sched.parfor_perm_invariant` / `m4rmPass_order_free` are stated. -/
+def ompLoopsOk : Bool := Gen.ompLoops.all fun l => l.2.2.2.2.all fun x => x == l.2.2.1 || l.2.2.2.1.contains x
+theorem omp_loops_private : ompLoopsOk = true := by decide
 
 #check @M4ri.BMat.Mp.mp4_schedule_free
 #check @M4ri.BMat.Mp.mulMp4_independent
